@@ -393,7 +393,7 @@ class NSGCoordinator(GameCoordinator):
         # This is a quick fix, we should find some other solution
         agents = self.task_config.config['coordinator']['agents']
         # Fields that are dictionaries with IP keys
-        dict_keys = ['known_data', 'blocked_ips', 'known_blocks']
+        dict_keys = ['known_data', 'blocked_ips', 'known_blocks', 'known_services']
         # Fields that are lists of IP strings
         list_keys = ['known_hosts', 'controlled_hosts']
         ip_regex = re.compile(r'\b(?:[0-9]{1,3}\.){3}[0-9]{1,3}\b')
@@ -426,6 +426,29 @@ class NSGCoordinator(GameCoordinator):
                                 # Skip if the IP is invalid or not found in mapping_ips
                                 continue
                             current_dict[new_ip] = current_dict.pop(ip)
+
+                # Remap the blocked hosts listed for each host in known_blocks
+                if isinstance(section.get('known_blocks'), dict):
+                    for host, blocked in section['known_blocks'].items():
+                        if isinstance(blocked, (list, dict, set)):
+                            new_blocked = []
+                            for ip in blocked:
+                                try:
+                                    new_blocked.append(str(mapping_ips[IP(ip)]))
+                                except (ValueError, KeyError):
+                                    new_blocked.append(ip)
+                            section['known_blocks'][host] = new_blocked
+
+                # Remap networks in the goal (networks of the start position are mapped when the state is created)
+                if section_key == 'goal' and 'known_networks' in section:
+                    new_nets = []
+                    for net in section['known_networks']:
+                        try:
+                            net_ip, net_mask = net.split('/')
+                            new_nets.append(str(mapping_nets[Network(net_ip, int(net_mask))]))
+                        except (ValueError, KeyError, AttributeError):
+                            new_nets.append(net)
+                    section['known_networks'] = new_nets
 
                 # Remap list items
                 for key in list_keys:
